@@ -17,12 +17,25 @@ def is_sym(x):
     return isinstance(x, z3.ExprRef)
 
 
+_ci, _cc = {}, {}
+
+
 def bv_i(x):
-    return x if isinstance(x, z3.ExprRef) else z3.BitVecVal(int(x), IW)
+    if isinstance(x, z3.ExprRef):
+        return x
+    r = _ci.get(x)
+    if r is None:
+        r = _ci[x] = z3.BitVecVal(int(x), IW)
+    return r
 
 
 def bv_c(x):
-    return x if isinstance(x, z3.ExprRef) else z3.BitVecVal(int(x), CW)
+    if isinstance(x, z3.ExprRef):
+        return x
+    r = _cc.get(x)
+    if r is None:
+        r = _cc[x] = z3.BitVecVal(int(x), CW)
+    return r
 
 
 def b_z(x):
@@ -34,21 +47,43 @@ def _cb(x):
     if x is True or x is False:
         return x
     if isinstance(x, z3.ExprRef):
-        if z3.is_true(x):
-            return True
-        if z3.is_false(x):
-            return False
+        # smart constructors never build constant BoolRefs; only foreign ones can be constant
         return None
     return bool(x)
+
+
+_CTX = z3.main_ctx()
+_CREF = _CTX.ref()
+_Ast = z3.Ast
+_mk_and, _mk_or, _mk_not, _mk_ite, _mk_eq = z3.Z3_mk_and, z3.Z3_mk_or, z3.Z3_mk_not, z3.Z3_mk_ite, z3.Z3_mk_eq
+_BoolRef, _BVRef = z3.BoolRef, z3.BitVecRef
+
+
+def _fast_and(out):
+    n = len(out)
+    arr = (_Ast * n)(*[a.ast for a in out])
+    return _BoolRef(_mk_and(_CREF, n, arr), _CTX)
+
+
+def _fast_or(out):
+    n = len(out)
+    arr = (_Ast * n)(*[a.ast for a in out])
+    return _BoolRef(_mk_or(_CREF, n, arr), _CTX)
+
+
+def _fast_ite_bv(c, a, b):
+    return _BVRef(_mk_ite(_CREF, c.ast, a.ast, b.ast), _CTX)
+
+
+def _fast_eq(a, b):
+    return _BoolRef(_mk_eq(_CREF, a.ast, b.ast), _CTX)
 
 
 def Not(a):
     c = _cb(a)
     if c is not None:
         return not c
-    if z3.is_not(a):
-        return a.arg(0)
-    return z3.Not(a)
+    return _BoolRef(_mk_not(_CREF, a.ast), _CTX)
 
 
 def And(*xs):
@@ -65,7 +100,7 @@ def And(*xs):
         return True
     if len(out) == 1:
         return out[0]
-    return z3.And(out)
+    return _fast_and(out)
 
 
 def Or(*xs):
@@ -82,7 +117,7 @@ def Or(*xs):
         return False
     if len(out) == 1:
         return out[0]
-    return z3.Or(out)
+    return _fast_or(out)
 
 
 def Implies(a, b):
@@ -132,7 +167,7 @@ def ite_i(c, a, b):
         return a if cc else b
     if _same(a, b):
         return a
-    return z3.If(c, bv_i(a), bv_i(b))
+    return _fast_ite_bv(c, bv_i(a), bv_i(b))
 
 
 def ite_c(c, a, b):
@@ -141,7 +176,7 @@ def ite_c(c, a, b):
         return a if cc else b
     if _same(a, b):
         return a
-    return z3.If(c, bv_c(a), bv_c(b))
+    return _fast_ite_bv(c, bv_c(a), bv_c(b))
 
 
 def _wrap_i(v):
@@ -176,7 +211,7 @@ def eq_i(a, b):
         return a == b
     if _same(a, b):
         return True
-    return bv_i(a) == bv_i(b)
+    return _fast_eq(bv_i(a), bv_i(b))
 
 
 def lt(a, b):
@@ -218,19 +253,46 @@ def eq_c(a, b):
         return a == b
     if _same(a, b):
         return True
-    return bv_c(a) == bv_c(b)
+    return _fast_eq(bv_c(a), bv_c(b))
+
+
+_mk_ule, _mk_uge = z3.Z3_mk_bvule, z3.Z3_mk_bvuge
 
 
 def in_range_c(c, lo, hi):
     if not is_sym(c):
         return lo <= c <= hi
-    return z3.And(z3.UGE(c, lo), z3.ULE(c, hi))
+    if lo == hi:
+        return _fast_eq(c, bv_c(lo))
+    if lo == 0:
+        return _BoolRef(_mk_ule(_CREF, c.ast, bv_c(hi).ast), _CTX)
+    if hi == 255:
+        return _BoolRef(_mk_uge(_CREF, c.ast, bv_c(lo).ast), _CTX)
+    return _fast_and([_BoolRef(_mk_uge(_CREF, c.ast, bv_c(lo).ast), _CTX), _BoolRef(_mk_ule(_CREF, c.ast, bv_c(hi).ast), _CTX)])
+
+
+_set_cache = {}
 
 
 def in_set_c(c, codes):
     if not is_sym(c):
         return c in codes
-    return Or([c == x for x in codes])
+    k = (c.get_id(), codes if isinstance(codes, tuple) else tuple(codes))
+    r = _set_cache.get(k)
+    if r is not None:
+        return r[1]
+    cs = sorted(set(codes))
+    rngs = []
+    for x in cs:
+        if rngs and rngs[-1][1] == x - 1:
+            rngs[-1][1] = x
+        else:
+            rngs.append([x, x])
+    e = Or([in_range_c(c, a, b) for a, b in rngs])
+    if len(_set_cache) > 100000:
+        _set_cache.clear()
+    _set_cache[k] = (c, e)
+    return e
 
 
 def simp(e):
@@ -254,7 +316,7 @@ def vars_of(e, _cache={}):
     k = e.get_id()
     r = _cache.get(k)
     if r is not None:
-        return r
+        return r[1]
     seen = set()
     out = set()
     st = [e]
@@ -270,7 +332,7 @@ def vars_of(e, _cache={}):
         else:
             st.extend(x.children())
     r = frozenset(out)
-    _cache[k] = r
     if len(_cache) > 200000:
         _cache.clear()
+    _cache[k] = (e, r)  # holding e keeps its AST id from being reused while cached
     return r
